@@ -116,4 +116,26 @@ theorem rshift_val (u : List Nat) (c : Nat) (hu : Limbs u) (hn : 1 ≤ u.length)
 example : rshift [5, 3] 1 = ([2 ^ 63 + 2, 1], 2 ^ 63) := by decide
 example : rshift [B - 1, B - 1] 60 = ([B - 1, 15], B - 16) := by decide
 
+/-- mpn_cmp (equal sizes, size 0 allowed): the limb-by-limb comparison from the top returns the sign
+    of val u − val v. -/
+theorem cmp_spec (u v : List Nat) (hu : Limbs u) (hv : Limbs v) (hl : u.length = v.length) :
+    cmp u v = (if val u < val v then -1 else if val u = val v then 0 else 1) := by
+  have h := cmpRev_spec u.reverse v.reverse (Limbs_reverse hu) (Limbs_reverse hv) (by simpa using hl)
+  rw [List.reverse_reverse, List.reverse_reverse] at h
+  unfold cmp
+  rcases h with ⟨h1, h2⟩ | ⟨h1, h2⟩ | ⟨h1, h2⟩
+  · rw [h1, if_pos h2]
+  · rw [h1, if_neg (by omega), if_pos h2]
+  · rw [h1, if_neg (by omega), if_neg (by omega)]
+
+example : cmp [5, 7] [6, 7] = -1 := by decide
+example : cmp [B - 1, 2] [0, 3] = -1 := by decide
+example : cmp [1, 3] [B - 1, 2] = 1 := by decide
+example : cmp [4, 4] [4, 4] = 0 := by decide
+
+/-- mpn_zero_p: returns true exactly when the value is zero (limbs need not even be proper). -/
+theorem zero_p_iff (u : List Nat) : zero_p u = true ↔ val u = 0 := zero_p_iff' u
+
+example : zero_p [0, 0, 0] = true ∧ zero_p [0, 0, 1] = false := by decide
+
 end Mpir
